@@ -109,3 +109,18 @@ Qed.
 Example unexpected_warning_is_parser_error :
   parse_model_M (chk_rejects "self._Y[t] = self._X[t]" (ChkOtherWarning 1)) true "Y = X" = PErr ParserError.
 Proof. vm_compute. reflexivity. Qed.
+
+(* 74fa5fb: a code that compile() refuses with ValueError / RecursionError / MemoryError / OverflowError is a problem
+   statement like a SyntaxError: the model is a ParserError (these used to escape as foreign exceptions) *)
+Example caught_exception_is_parser_error :
+  parse_model_M (chk_rejects "self._Y[t] = self._X[t]" ChkCaughtExn) true (lines ["Y = X"; "Z = 1"]) = PErr ParserError.
+Proof. vm_compute. reflexivity. Qed.
+Example caught_exception_hyps :     (* the premises of compile_failure_is_parser_error on that instance *)
+  let chk := chk_rejects "self._Y[t] = self._X[t]" ChkCaughtExn in
+  snd (split_M (lines ["Y = X"; "Z = 1"])) = None /\ passes chk "Y = X" /\ passes chk "Z = 1" /\
+  exists syms, parse_equation_M "Y = X" = POk syms /\ check_codes chk (codes_of syms) = VProblem.
+Proof.
+  split; [vm_compute; reflexivity|]. split; [eexists; split; [vm_compute; reflexivity|right; vm_compute; reflexivity]|].
+  split; [eexists; split; [vm_compute; reflexivity|left; vm_compute; reflexivity]|].
+  eexists. split; vm_compute; reflexivity.
+Qed.
